@@ -21,6 +21,12 @@
 (***************************************************************************)
 EXTENDS Integers, Sequences, FiniteSets, SequencesExt, FiniteSetsExt, TLC
 
+\* Named deviations of the implementation from the documented semantics (known findings, DESIGN.md 6).  The checks
+\* probe each one on its minimal input first and run the cases with exactly the deviations the tree really has, so
+\* that every other disagreement is still reported.
+\*   "boolNullIsFalse" : in a bool comparison (b = true, tags.k != false) a null or non-bool operand counts as false
+CONSTANT Dev
+
 Nil == [t |-> "nil"]
 S(v) == [t |-> "s", v |-> v]
 N(v) == [t |-> "n", v |-> 2 * v]          \* int64 (also int32 storage)
@@ -102,22 +108,27 @@ OpKind(symType, lit) == CASE symType = "any" -> (IF lit.t \in {"n", "f"} THEN "n
 OrdCmp(op, lt, eq) == CASE op = "eq" -> eq [] op = "ne" -> ~eq [] op = "lt" -> lt [] op = "le" -> (lt \/ eq)
                          [] op = "gt" -> (~lt /\ ~eq) [] op = "ge" -> ~lt
 
-CmpVals(kind, op, x, y) ==
-  IF IsNil(x) \/ IsNil(y) THEN op = "ne"                    \* null: everything false except !=
+CmpValsA(kind, op, x, y, symAny) ==
+  IF (IsNil(x) \/ IsNil(y)) /\ ~(kind = "b" /\ "boolNullIsFalse" \in Dev) THEN op = "ne"     \* null: everything false except !=
   ELSE IF kind = "s" THEN LET a == AsString(x) b == AsString(y) IN OrdCmp(op, SLess(a, b), a = b)
-  ELSE IF kind = "num" THEN (IF x.t \notin {"n", "f"} \/ y.t \notin {"n", "f"} THEN op = "ne"   \* not a number: like null
+  ELSE IF kind = "num" THEN (IF x.t \notin {"n", "f"} \/ y.t \notin {"n", "f"} \/ (symAny /\ y.t = "n" /\ x.t = "f")
+                             THEN op = "ne"                      \* not a number (any-typed: a float value under an int literal is not an int): like null
                              ELSE OrdCmp(op, x.v < y.v, x.v = y.v))
   ELSE IF kind = "d" THEN (IF x.t # "d" \/ y.t # "d" THEN op = "ne" ELSE OrdCmp(op, x.v < y.v, x.v = y.v))
-  ELSE (IF x.t # "b" \/ y.t # "b" THEN op = "ne" ELSE (IF op = "eq" THEN x.v = y.v ELSE IF op = "ne" THEN x.v # y.v ELSE FALSE))
+  ELSE LET xb == IF x.t = "b" THEN x.v ELSE FALSE IN
+       IF "boolNullIsFalse" \in Dev THEN (IF op = "eq" THEN xb = y.v ELSE IF op = "ne" THEN xb # y.v ELSE FALSE)
+       ELSE (IF x.t # "b" \/ y.t # "b" THEN op = "ne" ELSE (IF op = "eq" THEN x.v = y.v ELSE IF op = "ne" THEN x.v # y.v ELSE FALSE))
+
+CmpVals(kind, op, x, y) == CmpValsA(kind, op, x, y, FALSE)
 
 \* one atomic test of a single value x.  a = [k, ...]
 Test(a, symType, x) ==
-  CASE a.k = "cmp" -> CmpVals(OpKind(symType, a.lit), a.op, x, a.lit)
+  CASE a.k = "cmp" -> CmpValsA(OpKind(symType, a.lit), a.op, x, a.lit, symType = "any")
     [] a.k = "null" -> IF a.neg THEN ~IsNil(x) ELSE IsNil(x)
-    [] a.k = "in" -> LET hit == ~IsNil(x) /\ \E l \in a.lits : CmpVals(OpKind(symType, l), "eq", x, l)
+    [] a.k = "in" -> LET hit == ~IsNil(x) /\ \E l \in a.lits : CmpValsA(OpKind(symType, l), "eq", x, l, symType = "any")
                      IN IF a.neg THEN ~hit ELSE hit
     [] a.k = "between" -> LET kind == OpKind(symType, a.lo)
-                              hit == ~IsNil(x) /\ CmpVals(kind, "ge", x, a.lo) /\ CmpVals(kind, "lt", x, a.hi)
+                              hit == ~IsNil(x) /\ CmpValsA(kind, "ge", x, a.lo, symType = "any") /\ CmpValsA(kind, "lt", x, a.hi, symType = "any")
                           IN IF a.neg THEN ~hit ELSE hit
     [] a.k = "contains" -> LET hit == ~IsNil(x) /\ x.t \in {"s", "n", "f"} /\
                                       (IF a.ci THEN SContains(UpperS(AsString(x)), UpperS(AsString(a.lit)))
@@ -172,8 +183,16 @@ Eval(ds, id, f) ==
   CASE f.k = "const" -> f.v
     [] f.k = "boolsym" -> LET x == Val(ds, id, f.sym) IN x.t = "b" /\ x.v
     [] f.k = "atom" -> Test(f.a, SymType(f.sym), Val(ds, id, f.sym))
-    [] f.k = "anyOf" -> LET e == Elems(ds, id, f.sym) IN \E i \in 1..Len(e) : Test(f.a, SymType(f.sym), e[i])
-    [] f.k = "allOf" -> LET e == Elems(ds, id, f.sym) IN \A i \in 1..Len(e) : Test(f.a, SymType(f.sym), e[i])
+    \* `anyOf(S) not in L` / `not between` are read the way the engine builds them: the negation of `anyOf(S) in L`
+    \* (a `not` around the set function), whereas `!=` and `not contains` are tests of the single element.  The documented
+    \* semantics do not say which; the engine's reading is adopted (DESIGN.md 5/C01).
+    [] f.k \in {"anyOf", "allOf"} ->
+         LET e == Elems(ds, id, f.sym)
+             outer == f.a.k \in {"in", "between"} /\ f.a.neg
+             a == IF outer THEN [f.a EXCEPT !.neg = FALSE] ELSE f.a
+             r == IF f.k = "anyOf" THEN \E i \in 1..Len(e) : Test(a, SymType(f.sym), e[i])
+                  ELSE \A i \in 1..Len(e) : Test(a, SymType(f.sym), e[i])
+         IN IF outer THEN ~r ELSE r
     [] f.k = "count" -> CmpVals("num", f.op, N(Len(Elems(ds, id, f.sym))), f.n)
     [] f.k = "isEmpty" -> Len(Elems(ds, id, f.sym)) = 0
     [] f.k = "countq" -> CmpVals("num", f.op, N(Len(Answer(ds, PeerIds(ds, id, f.sym), f.q).ids)), f.n)
@@ -183,10 +202,10 @@ Eval(ds, id, f) ==
     [] f.k = "not" -> ~Eval(ds, id, f.e)
 
 \* C20: every symbol a query references
-RECURSIVE FSyms(_)
+RECURSIVE FSyms(_), QSyms(_)
 FSyms(f) == CASE f.k \in {"const"} -> {}
               [] f.k \in {"boolsym", "atom", "anyOf", "allOf", "count", "isEmpty"} -> {f.sym}
-              [] f.k \in {"countq", "isEmptyq"} -> {f.sym}     \* the sub-query's symbols belong to the linked store
+              [] f.k \in {"countq", "isEmptyq"} -> {f.sym} \cup QSyms(f.q)    \* (the validator checks the sub-query's symbols against the same store)
               [] f.k \in {"and", "or"} -> FSyms(f.l) \cup FSyms(f.r)
               [] f.k = "not" -> FSyms(f.e)
 QSyms(q) == FSyms(q.p) \cup {q.sort[i].sym : i \in 1..Len(q.sort)}
